@@ -155,6 +155,7 @@ func Transform(pkgs []*packages.Package, excluded func(filename string) bool) *R
 	in.normalizeMethodValues(pkgs, excluded)
 	in.normalizeRangeInt(pkgs, excluded)
 	in.normalizeLibraryLoops(pkgs, excluded)
+	in.normalizeLiteralRange(pkgs, excluded)
 	in.findClosures(pkgs, excluded)
 	for _, pk := range pkgs {
 		for _, f := range pk.Syntax {
@@ -481,6 +482,8 @@ type site struct {
 	// instantiation of a generic callee at this call
 	inst  *types.Signature
 	targs *types.TypeList
+	// the call is the whole operand of a return statement of the caller
+	tail bool
 }
 
 func (in *inliner) calleeOf(pk *packages.Package, call *ast.CallExpr) *site {
@@ -710,6 +713,7 @@ func (in *inliner) tryInline(pk *packages.Package, file *ast.File, s ast.Stmt, o
 		if st == nil {
 			return nil
 		}
+		st.tail = in.returnsOf(owner, s, len(x.Results))
 		pre, results := in.expand(pk, file, st, owner)
 		if pre == nil || len(results) == 0 {
 			return nil
@@ -1249,6 +1253,17 @@ func (in *inliner) expand(pk *packages.Package, file *ast.File, st *site, ownerD
 			allNamedRes = false
 		}
 	}
+	// how a way out of the callee's body is written: a break out of the
+	// labelled block, or, when the call is the whole operand of a return
+	// statement of the caller, that return itself (each way out of the helper
+	// then is a way out of the caller, as it was before the helper was
+	// extracted; the results were stored, and the deferred calls made, before)
+	leave := func() ast.Stmt {
+		if st.tail {
+			return &ast.ReturnStmt{Results: idents(results)}
+		}
+		return &ast.BranchStmt{Tok: token.BREAK, Label: ast.NewIdent(label)}
+	}
 	okRet := true
 	rewriteReturns(body, func(r *ast.ReturnStmt) []ast.Stmt {
 		var out []ast.Stmt
@@ -1270,7 +1285,7 @@ func (in *inliner) expand(pk *packages.Package, file *ast.File, st *site, ownerD
 			out = append(out, &ast.AssignStmt{Lhs: idents(namedRes), Tok: token.ASSIGN, Rhs: r.Results})
 			out = append(out, deferredCalls(r.Pos(), false)...)
 			out = append(out, &ast.AssignStmt{Lhs: idents(results), Tok: token.ASSIGN, Rhs: idents(namedRes)})
-			out = append(out, &ast.BranchStmt{Tok: token.BREAK, Label: ast.NewIdent(label)})
+			out = append(out, leave())
 			return out
 		case len(r.Results) == len(results):
 			out = append(out, &ast.AssignStmt{Lhs: idents(results), Tok: token.ASSIGN, Rhs: r.Results})
@@ -1282,11 +1297,11 @@ func (in *inliner) expand(pk *packages.Package, file *ast.File, st *site, ownerD
 		if closureDefer && allNamedRes && len(r.Results) == 0 {
 			// bare return: deferred calls first, then the named values
 			out = append(deferredCalls(r.Pos(), false), out...)
-			out = append(out, &ast.BranchStmt{Tok: token.BREAK, Label: ast.NewIdent(label)})
+			out = append(out, leave())
 			return out
 		}
 		out = append(out, deferredCalls(r.Pos(), false)...)
-		out = append(out, &ast.BranchStmt{Tok: token.BREAK, Label: ast.NewIdent(label)})
+		out = append(out, leave())
 		return out
 	})
 	if !okRet {
@@ -1315,8 +1330,12 @@ func (in *inliner) expand(pk *packages.Package, file *ast.File, st *site, ownerD
 	if !(closureDefer && allNamedRes) {
 		inner = append(inner, deferredCalls(token.NoPos, true)...)
 	}
-	inner = append(inner, &ast.BranchStmt{Tok: token.BREAK, Label: ast.NewIdent(label)})
-	sw := &ast.LabeledStmt{Label: ast.NewIdent(label), Stmt: &ast.SwitchStmt{Body: &ast.BlockStmt{List: []ast.Stmt{&ast.CaseClause{Body: []ast.Stmt{&ast.BlockStmt{List: inner}}}}}}}
+	inner = append(inner, leave())
+	var sw ast.Stmt = &ast.LabeledStmt{Label: ast.NewIdent(label), Stmt: &ast.SwitchStmt{Body: &ast.BlockStmt{List: []ast.Stmt{&ast.CaseClause{Body: []ast.Stmt{&ast.BlockStmt{List: inner}}}}}}}
+	if st.tail {
+		// no break leads out of the body: every way out is a return
+		sw = &ast.BlockStmt{List: inner}
+	}
 	pre = append(pre, sw)
 	in.dirty[file] = true
 	c.sites++
@@ -1373,6 +1392,31 @@ func (in *inliner) mentions(c *callee, name string) bool {
 		}
 		return !found
 	})
+	return found
+}
+
+// returnsOf: the return statement s belongs to the body of owner itself (not
+// to a function literal inside it, whose result list may differ).
+func (in *inliner) returnsOf(owner *ast.FuncDecl, s ast.Stmt, n int) bool {
+	if owner == nil || owner.Body == nil {
+		return false
+	}
+	found := false
+	var visit func(n ast.Node) bool
+	visit = func(n ast.Node) bool {
+		if n == nil || found {
+			return false
+		}
+		if _, isLit := n.(*ast.FuncLit); isLit {
+			return false
+		}
+		if n == ast.Node(s) {
+			found = true
+			return false
+		}
+		return true
+	}
+	ast.Inspect(owner.Body, visit)
 	return found
 }
 
